@@ -1,7 +1,7 @@
 /-
   Lungo.Proofs.ConcOwn3 — the ownership invariant (Oinv), per sub-machine (generated mechanically).
 -/
-import Lungo.Proofs.ConcOwn2
+import Lungo.Proofs.ConcOwnDefs
 namespace Lungo.Conc
 
 set_option maxHeartbeats 1000000 in
